@@ -103,6 +103,8 @@ def gen_bytes_wide(rng, kind=None):
     separators, the other 'line boundary' code points of str.splitlines, header look-alikes, more than 100 lines, ~1 kB"""
     if kind is None:
         r = rng.random()
+        if r < 0.04:          # text that is not in Unicode normal form C (nothing may normalise recorded bytes)
+            return rng.choice([b"", b"name-", b"https://e.org/"]) + nfc_unstable_bytes(rng) + rng.choice([b"", b".txt", b"/x"])
         if r < 0.12:          # a literal harvested from the code under test, spliced into an ordinary value
             return splice_token(rng, gen_bytes(rng))
         if r < 0.6:
@@ -351,3 +353,16 @@ def source_ints():
                 found.update({v - 1, v, v + 1})
     _SOURCE_TOKENS["ints"] = sorted(found)
     return _SOURCE_TOKENS["ints"]
+
+
+# text whose Unicode normal forms differ (a change that normalises names / URLs "as IRIs / as git does on macOS" alters it):
+# decomposed accents, singletons (ANGSTROM SIGN, OHM SIGN), CJK compatibility ideographs, Hangul jamo, ligatures under NFKC,
+# the Greek question mark; UTF-8 encoded
+NFC_UNSTABLE = ["e\u0301", "cafe\u0301", "A\u030a", "\u212b", "\u2126", "\uf900", "\ufa10x", "\u1100\u1161", "\ufb01", "\u037e",
+                "\u0387", "o\u0302\u0323", "\u1e9b\u0323", "\u00c5", "x\u0338=", "\u2000a", "\u0958"]
+
+
+def nfc_unstable_bytes(rng=None):
+    t = NFC_UNSTABLE if rng is None else [rng.choice(NFC_UNSTABLE)]
+    out = [x.encode("utf-8") for x in t]
+    return out if rng is None else out[0]
